@@ -13,7 +13,10 @@
 -/
 import Lcapy.Props.C04
 import Lcapy.Proofs.Ground
+import Lcapy.Proofs.PortOps
+import Lcapy.Props.C04Ground
 import Mathlib.Tactic.LinearCombination
+import Mathlib.Tactic.Linarith
 namespace Lcapy.C04
 open Lcapy.MNA Ix
 variable {K : Type} [Field K]
@@ -122,6 +125,91 @@ theorem model_any_load (kind : Kind) (s Voc Zth : K) (hZ : Zth ≠ 0) (load : Li
   · exact thevenin_port kind s Voc Zth _ hZ zt h1
   · rw [norton_port kind s (Voc / Zth) (1 / Zth) _ (one_div_ne_zero hZ) zn h2]; field_simp
 
+/-! ### Thevenin–Norton consistency of the MEASURED quantities -/
+
+/-- **isc_voc_zth**: "open-circuit voltage = short-circuit current × driving-point impedance" for the MEASURED
+    short-circuit current — the branch current of `Vshort_ p m` (branch `b`), which is what `Isc` of netlistopsmixin.py
+    reads — for any netlist: the short circuit is just one more load (`thevenin_any_load` with the load `[V p m b 0]`). -/
+theorem isc_voc_zth (kind : Kind) (s : K) (cs : List (Cpt K)) (p m b : Nat)
+    (z x0 xu : Ix → K) (hpm : p ≠ m) (hwf : C01.WF cs)
+    (h : Laws kind s (cs ++ [.V p m b 0]) z)
+    (h0 : Solves kind s (withProbe cs p m 0) x0)
+    (hu : Solves kind s (withProbe (killAll cs) p m 1) xu)
+    (hns : C01.Nonsingular kind s (withProbe cs p m (-(kclAt kind s [.V p m b 0] z p)))) :
+    vd x0 p m = z (br b) * vd xu p m := by
+  have h1 := thevenin_any_load kind s cs [.V p m b 0] p m z x0 xu hpm hwf (by simp [nodesOf]) h h0 hu hns
+  have e : kclAt kind s [.V p m b 0] z p = z (br b) := by simp [kclAt, outflow, twoTerm, lsum, Ne.symm hpm]
+  have v : vd z p m = 0 := by
+    have := h.2 (.V p m b 0) (by simp) (b, vd z p m - 0) (by simp [laws])
+    simpa using this
+  rw [e, v] at h1
+  linear_combination -h1
+
+/-- **impedance_admittance_inverse**: "impedance times admittance is one" for the two DIFFERENT experiments of
+    netlistopsmixin.py — `impedance(p, m)` (1 A test source, voltage read) and `admittance(p, m)` (1 V test source on the
+    fresh branch `b`, current delivered read): whenever both measure a value, Z·Y = 1.  The voltage source of the second
+    experiment is a load of the killed netlist (`load_substitution`); scaling its solution by 1/Y gives a solution of the
+    first experiment. -/
+theorem impedance_admittance_inverse (kind : Kind) (s : K) (cs : List (Cpt K)) (p m b : Nat) (Z Y : K) (hpm : p ≠ m)
+    (hwf : C01.WF (killAll cs))
+    (hZ : Measures kind s (impedanceExp cs p m) Z) (hY : Measures kind s (admittanceExp cs p m b) Y) :
+    Z * Y = 1 := by
+  obtain ⟨⟨xz, hxz⟩, hallZ⟩ := hZ
+  obtain ⟨⟨xa, hxa⟩, hallY⟩ := hY
+  have hYr : -(xa (br b)) = Y := hallY xa hxa
+  have hv : vd xa p m = 1 := by
+    have := hxa.2 (.V p m b 1) (by simp [admittanceExp]) (b, vd xa p m - 1) (by simp [laws])
+    exact sub_eq_zero.mp this
+  -- the test voltage source replaced by the current source that delivers the same current
+  have hsub := load_substitution kind s (killAll cs) [.V p m b 1] p m xa hpm (by simp [nodesOf]) hxa
+  have e : -(kclAt kind s [Cpt.V p m b 1] xa p) = Y := by
+    simp [kclAt, outflow, twoTerm, lsum, Ne.symm hpm, hYr]
+  rw [e] at hsub
+  have hwfI : ∀ J : K, C01.WF (killAll cs ++ [Cpt.I p m J]) := by
+    intro J
+    simp only [C01.WF, List.flatMap_append, List.flatMap_cons, List.flatMap_nil, owned, List.append_nil] at hwf ⊢
+    exact hwf
+  have hsolve := (C01.mna_iff_laws kind s _ xa (hwfI Y)).mpr hsub
+  -- scale by any a: a·xa solves the killed netlist driven by a·Y
+  have hscale : ∀ a : K, Laws kind s (killAll cs ++ [Cpt.I p m (a * Y)]) (fun i => a * xa i) := by
+    intro a
+    have h1 := C03.scaling kind s a _ xa hsolve
+    simp only [List.map_append, killAll_scale, List.map_cons, List.map_nil, Cpt.mapSrc] at h1
+    exact (C01.mna_iff_laws kind s _ _ (hwfI _)).mp h1
+  by_cases hY0 : Y = 0
+  · -- then xa is a non-zero solution of the undriven killed netlist: the impedance experiment could not be unique
+    exfalso
+    have hz0 := (C01.mna_iff_laws kind s _ xz (hwfI 1)).mpr hxz
+    have h0 : Solves kind s (killAll cs ++ [Cpt.I p m 0]) xa := by rw [hY0] at hsolve; exact hsolve
+    have hsum := C03.superposition kind s _ _ xz xa
+      (List.rel_append (forall2_refl _) (List.Forall₂.cons (by unfold SameShape; simp [Cpt.mapSrc]) List.Forall₂.nil)) hz0 h0
+    have e2 : List.zipWith Cpt.addSrc (killAll cs ++ [Cpt.I p m 1]) (killAll cs ++ [Cpt.I p m 0]) =
+        killAll cs ++ [Cpt.I p m 1] := by
+      rw [List.zipWith_append (by simp), zip_killed_killed]
+      simp [Cpt.addSrc]
+    rw [e2] at hsum
+    have hl := (C01.mna_iff_laws kind s _ _ (hwfI 1)).mp hsum
+    have r1 := hallZ xz hxz
+    have r2 := hallZ _ hl
+    simp only [impedanceExp, Obs.read] at r1 r2
+    have : vd (fun i => xz i + xa i) p m = vd xz p m + vd xa p m := by
+      cases p <;> cases m <;> simp [vd, volt] <;> ring
+    rw [this, r1, hv] at r2
+    exact one_ne_zero (by linear_combination r2)
+  · have h1 := hscale (1 / Y)
+    rw [one_div_mul_cancel hY0] at h1
+    have r := hallZ _ h1
+    simp only [impedanceExp, Obs.read, vd_smul, hv] at r
+    rw [← r]; field_simp
+
+/-- the Thevenin model of a port with Zth = 0 (a port across an ideal voltage source) is the bare source: the port
+    voltage is Voc whatever current the load delivers (`thevenin_port`, `model_any_load` are stated for Zth ≠ 0, where
+    the series element `Y 1 2 (1/Zth)` is meaningful) -/
+theorem thevenin_port_zero (kind : Kind) (s Voc J : K) (x : Ix → K)
+    (h : Laws kind s [.V 1 0 0 Voc, .I 1 0 J] x) : vd x 1 0 = Voc := by
+  have := h.2 (.V 1 0 0 Voc) (by simp) (0, vd x 1 0 - Voc) (by simp [laws])
+  exact sub_eq_zero.mp this
+
 /-! ### non-vacuity: `V1 1 0 6; R1 1 2 3` loaded by `R2 2 3 1; R3 3 0 2` (a load with an interior node) -/
 
 def exSrc : List (Cpt ℚ) := [.V 1 0 0 6, .R 1 2 3]
@@ -151,5 +239,49 @@ example : ∀ c ∈ exLoad, ∀ n ∈ nodesOf c, n = 2 ∨ n = 0 ∨ ∀ c' ∈ 
 /-- the current the load delivers into node 2 is −1 A (it draws 1 A): v = Voc + Zth·J = 6 + 3·(−1) = 3 -/
 example : -(kclAt .dc 0 exLoad exLoaded 2) = -1 := by
   norm_num [kclAt, exLoad, exLoaded, outflow, twoTerm, lsum, vd, volt]
+
+/-- non-vacuity of `impedance_admittance_inverse`: `R1 1 0 5` measures Z = 5 and Y = 1/5 -/
+def exR5 : List (Cpt ℚ) := [.R 1 0 5]
+
+theorem exR5_Z : Measures .dc (0 : ℚ) (impedanceExp exR5 1 0) 5 := by
+  constructor
+  · refine ⟨fun i => match i with | node 1 => 5 | _ => 0, ?_, ?_⟩
+    · intro k hk
+      match k with
+      | 0 => exact absurd rfl hk
+      | 1 => norm_num [exR5, impedanceExp, zProbe, killAll, Cpt.mapSrc, outflow, twoTerm, lsum, vd, volt]
+      | (k + 2) => simp [exR5, impedanceExp, zProbe, killAll, Cpt.mapSrc, outflow, twoTerm, lsum]
+    · intro c hc p hp
+      simp [exR5, impedanceExp, zProbe, killAll, Cpt.mapSrc] at hc
+      rcases hc with rfl | rfl <;> simp [laws] at hp
+  · intro x hx
+    have k1 := hx.1 1 (by decide)
+    simp [exR5, impedanceExp, zProbe, killAll, Cpt.mapSrc, outflow, twoTerm, lsum] at k1
+    simp only [impedanceExp, Obs.read]
+    linarith
+
+theorem exR5_Y : Measures .dc (0 : ℚ) (admittanceExp exR5 1 0 0) (1 / 5) := by
+  constructor
+  · refine ⟨fun i => match i with | node 1 => 1 | br 0 => -1/5 | _ => 0, ?_, ?_⟩
+    · intro k hk
+      match k with
+      | 0 => exact absurd rfl hk
+      | 1 => norm_num [exR5, admittanceExp, killAll, Cpt.mapSrc, outflow, twoTerm, lsum, vd, volt]
+      | (k + 2) => simp [exR5, admittanceExp, killAll, Cpt.mapSrc, outflow, twoTerm, lsum]
+    · intro c hc p hp
+      simp [exR5, admittanceExp, killAll, Cpt.mapSrc] at hc
+      rcases hc with rfl | rfl <;> simp [laws] at hp <;> (try subst hp) <;> norm_num [vd, volt]
+  · intro x hx
+    have k1 := hx.1 1 (by decide)
+    have l1 := hx.2 (.V 1 0 0 1) (by simp [admittanceExp]) (0, vd x 1 0 - 1) (by simp [laws])
+    simp [exR5, admittanceExp, killAll, Cpt.mapSrc, outflow, twoTerm, lsum, vd, volt] at k1 l1
+    simp only [admittanceExp, Obs.read]
+    rw [sub_eq_zero] at l1
+    rw [l1] at k1
+    linarith
+
+example : (5 : ℚ) * (1 / 5) = 1 :=
+  impedance_admittance_inverse .dc 0 exR5 1 0 0 5 (1 / 5) (by decide) (by simp [C01.WF, killAll, exR5, Cpt.mapSrc, owned])
+    exR5_Z exR5_Y
 
 end Lcapy.C04
